@@ -26,7 +26,7 @@ RULE = ('configurations (shape d=2..4, mode sizes 1..4, start tensor, dr '
 REQUIRED = {'domain': 500, 'budget': 500, 'prefix': 500, 'stop-m-iff': 500,
     'counter-m': 1000, 'counter-nswp': 1000, 'wellformed-on-interrupt': 1000,
     'stop-reason': 1000, 'none-stop': 200, 'no-eval-after-stop': 200,
-    'cb-stop': 40, 'threshold-stop': 40, 'reject-before-eval': 100, 'pattern-run': 100,
+    'cb-stop': 40, 'threshold-stop': 40, 'nswp-zero': 40, 'reject-before-eval': 100, 'pattern-run': 100,
     'cache-once': 200, 'counter-cache': 200}
 REQUIRED_EVENTS = {'interrupt-ltr-first': 5, 'interrupt-ltr-middle': 5,
     'interrupt-ltr-last': 5, 'interrupt-rtl-first': 5,
@@ -175,7 +175,8 @@ def run_case(case, ctx):
     r0s = int(rng.integers(1, 3))
     r0 = [1] + [r0s] * (d - 1) + [1]
     Y0 = crossh.start_tensor(rng, n, r0)
-    dr_min, dr_max = [(0, 0), (0, 1), (1, 1), (1, 2)][int(rng.integers(4))]
+    dr_min, dr_max = [(0, 0), (0, 1), (1, 1), (1, 2), (2, 2), (2, 3), (3, 3)][
+        int(rng.integers(7))]
     nswp = int(rng.integers(1, 4))
     base = dict(dr_min=dr_min, dr_max=dr_max)
     if case['vld']:
@@ -201,6 +202,15 @@ def run_case(case, ctx):
     ctx.event('reference-batches', K)
     ctx.event('reference-evaluations', M)
     conf = [n, r0, dr_min, dr_max, nswp, use_cache, case['vld']]
+
+    # ---- (0) nswp = 0: only the pre-iteration; the stop reason set right
+    # after it must be honoured at the first request of the first sweep
+    run0, kw0 = go(nswp=0)
+    if judge_common(ctx, run0, n, kw0, 'nswp=0'):
+        ctx.check('nswp-zero', run0.info['stop'] == 'nswp'
+            and run0.info['nswp'] == 0 and not run0.sweeps
+            and len(run0.batches) <= 1, f'nswp=0: stop {run0.info["stop"]!r}, '
+            f'{run0.info["nswp"]} sweeps, {len(run0.batches)} batches evaluated')
 
     # ---- (a) every budget
     for m in range(1, M + 2):
